@@ -70,6 +70,10 @@ def route_value_rules(run, db):
                     label = '%s vs %s, %dx%d %s samples -> %dx%d, shift %s, Q %s' % (fwd_c, fwd_m, shape[0], shape[1], 'complex' if cplx else 'real', out[0], out[1], shift, qmode)
                     it, dom = file_interp(db)
                     dom.positive = {'Q', 'Qy', 'Qx'}
+                    # a path taken only because two different symbols (Qy and Qx, say) were assumed equal describes inputs that the
+                    # scalar-Q case covers with the symbols identified: it is skipped, not judged with symbols that no longer describe it
+                    from .ftkernels import watch_coincidences
+                    watch_coincidences(it, dom)
                     a = _run(db, it, dom, 'ChirpZTransformExecutor', fwd_c, shape, out, shift, qmode, cplx)
                     b = _run(db, it, dom, 'MatrixDFTExecutor', fwd_m, shape, out, shift, qmode, cplx)
                     if shift != (0, 0):
